@@ -110,6 +110,8 @@ def run_ops(n, scale, ops_source, rng, length):
             elif nm in ("set_values", "set_known_values", "set_lower_bounds", "set_upper_bounds"):
                 vals = np.array(op["xs"], dtype=np.float64)
                 cs = None if op.get("all") else [Coalition(c) for c in op["cs"]]
+                if cs is not None and rng is not None and rng.random() < 0.3:
+                    cs = (c for c in cs)             # any Iterable is allowed by the signature: a one-shot generator
                 if nm == "set_values":
                     g.set_values(vals, cs)
                 elif nm == "set_known_values":
